@@ -195,6 +195,8 @@ impl BufferManager {
                 current = self.allocated.load(Ordering::Relaxed);
                 continue;
             }
+            #[cfg(grafeo_verif)]
+            crate::verif::sched_point("buffer.try_allocate.before_cas");
             match self.allocated.compare_exchange_weak(
                 current,
                 current + size,
